@@ -4,8 +4,8 @@ import PyecoreModel.Model.Store
 
 Mirrors `pyecore/commands.py`: `Set`, `Add`, `Remove`, `Move` (their `can_execute`, `do_execute`, `undo`, `redo`, with
 the effective indices they remember) over the Store's public operations, and `CommandStack`
-(`execute` / `undo` / `redo`, the cursor, the truncation of the redo tail).  `Delete` and `Compound` are exercised
-by the check's oracle on the real code; they are not part of this model.
+(`execute` / `undo` / `redo`, the cursor, the truncation of the redo tail).  `Compound` is in `Model/Compound.lean`; `Delete`
+is exercised by the check's oracle on the real code and is not part of this model.
 -/
 namespace Store
 
